@@ -284,11 +284,7 @@ func (br *xmpReader) readTagValue() (buf []byte, err error) {
 			return
 		}
 		if i == 0 {
-			if buf[i] == '>' {
-				i++
-			} else if buf[i] == '/' && buf[i+1] == '>' {
-				i += 2
-			}
+			// (the tag header, its '>' included, has been consumed: a '>' here is text)
 			// removes white space and new lines prefixes
 			for ; i < len(buf); i++ {
 				if isWhiteSpace(buf[i]) {
